@@ -15,6 +15,7 @@ CONSTANTS
   DevCleanAfterWrite <- MC_DevCleanAfterWrite
   DevDepsOnSuccessOnly <- MC_DevDepsOnSuccessOnly
   DevCreateNoNotify <- MC_DevCreateNoNotify
+  DevRmdirNoRestart <- MC_DevRmdirNoRestart
   DevDepsOnExistingOnly <- MC_DevDepsOnExistingOnly
 SPECIFICATION HSpec
 VIEW View
